@@ -2026,6 +2026,9 @@ class MatrixBase:
 
     def _mat_mul(self, other: 'MatrixBase') -> None:
         """Rotate myself by the other matrix."""
+        if other is self:
+            # mat @= mat: the rows below would be read after they were already overwritten.
+            other = self._duplicate()
         # We don't use each row after assigning to the set, so we can re-assign.
         # 3-tuple unpacking is optimised.
         self._aa, self._ab, self._ac = (
